@@ -1,1 +1,69 @@
-/-! Property theorems for C17 (statements + proofs by reference to `Proof/`). Not built yet. -/
+import GraafVerif.Thm.C02
+import GraafVerif.Thm.C11
+import GraafVerif.Thm.C12
+import GraafVerif.Thm.C14
+import GraafVerif.Thm.C15
+/-!
+# C17 — results never depend on the number of worker threads or their interleaving
+
+"Every operation that is not explicitly random returns the same result whatever number of CPUs the
+process may use and however its worker threads are scheduled: `AdjacencyList::{complement, complete,
+degree_sequence, is_semicomplete, union}` and `AdjacencyMap::union` equal their single-threaded
+definitions for every thread count from 1 to the machine's maximum.  The seeded `AdjacencyMap`
+generators, whose output is allowed to depend on the thread count, still return a valid tournament /
+simple digraph and still repeat exactly within one configuration."
+
+No new model: every parallel function is modelled in its own property's model with the thread count
+`t` (= `available_parallelism()`) as an explicit parameter, the chunking literally as coded
+(`Par.ranges`, `step_by`, `chunks`, merge-path partition), and the two functions with shared mutable
+state as labelled transition systems over which the theorems quantify all schedules.  C17 is the
+conjunction of those `∀ t ≥ 1` / `∀ schedule` theorems; they all rest on `Par.chunks_tile`
+(Proof/Par.lean) and, for the map union, on `findPartition_monotone`.
+
+What no model can exhibit and is only exercised by the tie (thread masks 1..16, repeated runs):
+the OS scheduler, weak-memory effects of the `Relaxed` `AtomicBool` (the model's flag is
+sequentially consistent; sound because the flag only falls, each store follows its own witness and
+the final load happens after `scope` joined all workers), and that `join` happens before the result
+is read.
+-/
+namespace GraafVerif.C17
+open GraafVerif GraafVerif.Repr
+
+/-- Full statement of C17 over the models. -/
+def Statement : Prop :=
+  -- AdjacencyList::complement: every thread count gives the single-threaded result
+  (∀ (d : AdjList) (t : Nat), 0 < t → 0 < d.order → Ops.complementAL d t = some (Ops.complementSeqAL d)) ∧
+  -- AdjacencyList::union
+  (∀ (a b : AdjList) (t : Nat), 0 < t → 0 < max a.order b.order → Ops.unionAL a b t = some (Ops.unionSeqAL a b)) ∧
+  -- AdjacencyMap::union, arbitrary key sets, wherever the merge-path boundaries fall
+  (∀ (a b : AdjMap) (t : Nat), 0 < t → a.WF → b.WF → 0 < a.rows.length + b.rows.length →
+      Ops.unionAM a b t = some (Ops.unionSeqAM a b)) ∧
+  -- AdjacencyList::complete
+  (∀ (n t : Nat), 1 ≤ t → Gen.AL.complete n t = Gen.AL.completeSeq n) ∧
+  -- AdjacencyList::degree_sequence
+  (∀ (d : AdjList) (t : Nat), d.WF → 0 < t → Query.AL.degreeSequence d t = Query.Spec.degreeSequence (Query.AL.abs d)) ∧
+  -- AdjacencyList::is_semicomplete: every thread count AND every schedule of the workers sharing the flag
+  (∀ (d : AdjList) (t : Nat) (sched : List Nat) (b : Bool), d.WF → 0 < t →
+      Pred.AL.isSemicompleteSched d t sched = some b → (b = true ↔ Pred.Def.IsSemicomplete (Query.AL.abs d))) ∧
+  -- seeded AdjacencyMap::random_tournament: valid for every thread count, and every interleaving of the
+  -- workers' locked inserts ends in the same rows (so a configuration repeats exactly)
+  (∀ (streams : Nat → Rand.Stream) (n t : Nat), 1 ≤ n → 1 ≤ t →
+      ∃ g, Rand.tournamentAM streams n t = some g ∧ Rand.IsTournament n (Rand.viewAM g)) ∧
+  (∀ (streams : Nat → Rand.Stream) (n t : Nat) (g : AdjMap), 2 ≤ n →
+      C15.TournamentAMOutcome streams n t g → Rand.tournamentAM streams n t = some g) ∧
+  -- seeded AdjacencyMap::erdos_renyi: a valid simple digraph for every thread count
+  (∀ (streams : Nat → Rand.Stream) (n t : Nat) (p : Rand.F64), 1 ≤ n → 1 ≤ t → p.inUnit = true →
+      ∃ g, Rand.erAM streams n t p = some g ∧ Rand.ErValid n p (Rand.viewAM g))
+
+theorem statement : Statement :=
+  ⟨fun d t ht hn => C11.complementAL_threads d t ht hn,
+   fun a b t ht hn => C11.unionAL_threads a b t ht hn,
+   fun a b t ht ha hb hn => C11.unionAM_threads a b t ht ha hb hn,
+   fun n t ht => C14.al_complete_thread_independent n t ht,
+   fun d t h ht => C02.al_degreeSequence_par d h t ht,
+   fun d t sched b h ht hb => C12.semicomplete_all_schedules d h t ht sched b hb,
+   fun streams n t hn ht => C15.tournament_valid_am streams n t hn ht,
+   fun streams n t g hn h => C15.tournament_am_outcome_unique streams n t hn g h,
+   fun streams n t p hn ht hp => C15.er_valid_am streams n t p hn ht hp⟩
+
+end GraafVerif.C17
